@@ -235,10 +235,17 @@ def check(case):
         ds = datagen.build_ondisk(path, df, meta)
         out = tmp / "out"
         out.mkdir()
+        before = (dict(prot.peptide_map), dict(prot.shared_peptides), dict(prot.protein_map))
         with config_inject.chunk_sizes(confidence=case.get("conf_chunk")):
             guarded(mokapot.assign_confidence, [ds], max_workers=1, scores=[np.array(scores, dtype=float)], descs=[True],
                     eval_fdr=0.05, dest_dir=out, prefixes=[None], decoys=True, proteins=prot, peps_algorithm="verif_stub",
                     sig="assign_confidence")  # every observed peptide is in the database: 'could not be mapped' errors are violations
+        # the database description is the same object for every later file / call: a roll-up must not write into it
+        after = (dict(prot.peptide_map), dict(prot.shared_peptides), dict(prot.protein_map))
+        for nm, b_, a_ in zip(("peptide_map", "shared_peptides", "protein_map"), before, after):
+            require(a_ == b_, "proteins-object-changed",
+                    f"Proteins.{nm} differs after the protein-level roll-up ({len(b_)} -> {len(a_)} entries, e.g. "
+                    f"{sorted(set(a_.items()) ^ set(b_.items()))[:2]}): the same object serves every later file")
         tf, dfp = out / "targets.proteins", out / "decoys.proteins"
         require(tf.exists() and dfp.exists(), "protein-files", f"{sorted(p.name for p in out.iterdir())}")
         got_t = pd.read_csv(tf, sep="\t", float_precision="round_trip")
